@@ -50,7 +50,7 @@ type ledger struct {
 func newLedger() *ledger { return &ledger{} }
 
 // observe bounds the change of the total between consecutive heights: it never grows by more than
-// the block mint (no transaction in the workload is an approved DAO mint; the faucet is off), and it
+// the block mint plus the approved DAO mints the workload executed (the faucet is off), and it
 // never shrinks by more than what slashing and the reward remainder can burn (stake + reward pool).
 func (l *ledger) observe(w *world, s *snapshot, what string) {
 	c := w.c
@@ -64,9 +64,11 @@ func (l *ledger) observe(w *world, s *snapshot, what string) {
 	c.Check()
 	blocks := s.height - l.lastHeight
 	mint := w.nodes[0].ctl.Config.InitialTokensPerBlock // upper bound: before any halvening
-	if s.supply.Total > l.lastTotal && s.supply.Total-l.lastTotal > mint*blocks {
+	allowed := mint*blocks + w.mintedInBlock            // plus approved DAO mints executed since the last observation
+	w.mintedInBlock = 0
+	if s.supply.Total > l.lastTotal && s.supply.Total-l.lastTotal > allowed {
 		c.ReportFor("C04", "conservation", "total-grew-beyond-mint",
-			fmt.Sprintf("%s: total supply grew by %d over %d block(s) (height %d -> %d), more than the scheduled mint of %d per block", what, s.supply.Total-l.lastTotal, blocks, l.lastHeight, s.height, mint))
+			fmt.Sprintf("%s: total supply grew by %d over %d block(s) (height %d -> %d), more than the scheduled mint of %d per block plus approved DAO mints (%d allowed)", what, s.supply.Total-l.lastTotal, blocks, l.lastHeight, s.height, mint, allowed))
 	}
 }
 
